@@ -157,7 +157,10 @@ func timeGen(exact bool) func(*rand.Rand, reflect.Value, string) {
 				v.Set(reflect.ValueOf(null.TimeFrom(t)))
 			}
 		default: // *time.Time
-			if rng.Intn(3) > 0 {
+			if rng.Intn(10) == 0 && (strings.Contains(schema, "string") || strings.Contains(schema, "date")) {
+				z := time.Time{} // a non-nil pointer to the zero time is a value, not null
+				v.Set(reflect.ValueOf(&z))
+			} else if rng.Intn(3) > 0 {
 				v.Set(reflect.ValueOf(&t))
 			}
 		}
@@ -233,7 +236,7 @@ func csRecord(fields []csField, name string) (reflect.Type, string) {
 		s = strings.ReplaceAll(s, `"name":"F4`, fmt.Sprintf(`"name":"F4_%s_%d`, name, i))
 		tagOpt := ""
 		if f.omit {
-			tagOpt = ",omitempty"
+			tagOpt = ",omitempty" // for wrap "array" / "map" this sits on the collection field
 		}
 		sfs[i] = reflect.StructField{Name: fmt.Sprintf("F%d", i), Type: t, Tag: reflect.StructTag(fmt.Sprintf(`json:"f%d%s"`, i, tagOpt))}
 		parts[i] = fmt.Sprintf(`{"name":"f%d","type":%s}`, i, s)
@@ -334,8 +337,8 @@ func driveCallerSchemas(c *driverCtx, prop string) error {
 					continue
 				}
 				for _, omit := range []bool{false, true} {
-					if omit && (wrap != "" || !strings.HasPrefix(sch, "[")) {
-						continue
+					if omit && (wrap == "record" || !strings.HasPrefix(sch, "[")) {
+						continue // (on an array or map field omitempty concerns the collection, never its nullable items)
 					}
 					fields := []csField{{sp, sch, wrap, omit}, {specs[0], `"long"`, "", false}}
 					// the same record name (and the same Go type, StructOf is canonical) for every schema of this field type:
